@@ -1,5 +1,6 @@
 import MdkVerif.Model.Client
 import MdkVerif.Model.Proposal
+import MdkVerif.Model.Handled
 /- line protocol for the `world` engine: replays a harness trace (with the observed event ids and
    timestamps) on Model.Client + Model.Proposal (every delivery and every commit-building operation goes through the
    proposal-store-aware functions `deliverP`, `stageCommitP`, … of Model.Proposal) and prints `result | fingerprint` per line -/
@@ -187,6 +188,12 @@ def exec (w : W) (t : List String) : W × String × Option Nat :=
       | none => (w, "bad-op", none)
     | none => (w, "bad-client", none)
   | ["fp", c] => (w, "fp", some (n c))
+  | ["handledq", c, ev] =>
+    -- query (no effect): is the event `handled` / `known` at the client NOW — the hypotheses of C07's history theorems,
+    -- evaluated on the model for the insertion pairs of vlib/c07hist.py
+    match getCl w (n c), getEv w (n ev) with
+    | some cl, some e => (w, s!"handled={if handled cl e.e then 1 else 0} known={if known cl e.e then 1 else 0}", none)
+    | _, _ => (w, "bad-ref", none)
   | _ => (w, "bad-op", none)
 
 partial def loop (h : IO.FS.Stream) (w : W) : IO Unit := do
